@@ -77,11 +77,11 @@ fn decode(dir: &str) -> J {
         .stderr(std::process::Stdio::null())
         .status();
     if !matches!(probe, Ok(s) if s.success()) {
-        return json!({"start": "fail", "valid": false, "records": [], "dbids": {}});
+        return json!({"start": "fail", "valid": false, "records": [], "dbids": {}, "nometa": []});
     }
     let node = match Node::start("n1", dir, "admin", "adminpwd", ClusterRole::Primary) {
         Ok(n) => n,
-        Err(_) => return json!({"start": "fail", "valid": false, "records": [], "dbids": {}}),
+        Err(_) => return json!({"start": "fail", "valid": false, "records": [], "dbids": {}, "nometa": []}),
     };
     let valid = node.dbs.is_oplog_valid.load(std::sync::atomic::Ordering::SeqCst);
     let idk = node.dbs.id_keys_map.read().unwrap().clone();
@@ -93,12 +93,19 @@ fn decode(dir: &str) -> J {
         recs.push(json!([t, dbn, kn, o]));
     }
     let mut dbids = serde_json::Map::new();
+    let mut nometa: Vec<String> = vec![];
     if let Ok(map) = node.dbs.map.read() {
         for (n, db) in map.iter() {
             dbids.insert(n.clone(), json!(db.metadata.id));
+            // a database whose metadata file is not on disk was given an identifier by the loader
+            if n != "$admin" && !std::path::Path::new(&format!("{}/{}-nun.madadata", dir, n)).exists()
+                && !std::path::Path::new(&nundb::storage::disk::meta_file_name_from_db_name(n.clone())).exists() {
+                nometa.push(n.clone());
+            }
         }
     }
-    json!({"start": "ok", "valid": valid, "records": recs, "dbids": dbids})
+    nometa.sort();
+    json!({"start": "ok", "valid": valid, "records": recs, "dbids": dbids, "nometa": nometa})
 }
 
 struct Run {
